@@ -52,6 +52,7 @@ class Engine:
         self.solver_time = 0.0
         self.nqueries = 0
         self.concrete_transcendentals = False
+        self.square_rules = {}           # variable name -> z3 term p with the assumed equation v*v == p
         self.canonical_uf_args = False   # arguments of Exp/Cos/Sin/... brought to sum-of-monomials normal form
         self.fork_log = []
         self.active = False
@@ -902,6 +903,7 @@ def sym_sqrt(s):
         r = ENGINE.fresh("sqrt")
         ENGINE.oblige("sqrt", zx >= 0, "sqrt argument >= 0")
         ENGINE.assume(z3.And(r >= 0, r * r == zx), "sqrt(x)=r: r>=0, r*r=x")
+        ENGINE.square_rules[r.decl().name()] = zx
         apps.append((zx, r))
         return SymR(r)
     raise SymbolicConcretization("sqrt of complex symbolic")
